@@ -1031,6 +1031,9 @@ impl SQLExpression for BinaryOperator {
         use BinaryOperator::*;
         match self {
             Minus | Divide | Modulo => Associativity::Left,
+            // `*` is only associative with itself, and shares its strength with `/` and `%`:
+            // `a * (b % c)` is not `a * b % c`
+            Multiply => Associativity::Left,
             // Comparisons are not associative: `a = (b = c)` is not `(a = b) = c`. Dialects
             // also disagree on how a chain of them groups (SQLite binds `<` tighter than `=`,
             // Postgres rejects `a < b < c`), so a comparison nested in a comparison is
